@@ -11,6 +11,8 @@ import (
 
 	xocsp "golang.org/x/crypto/ocsp"
 
+	"github.com/caddyserver/caddy/v2/caddyconfig/caddyfile"
+	revocation "github.com/gr33nbl00d/caddy-revocation-validator"
 	"github.com/gr33nbl00d/caddy-revocation-validator/config"
 
 	"verif/h/fw"
@@ -33,6 +35,10 @@ type c03Cell struct {
 	CDPStrict bool
 	Disk      bool
 	Chain     string
+	// Origin of the configuration: "" = the configuration structs are filled in directly (what JSON does),
+	// "caddyfile" / "caddyfile-other-order" = the same settings written as Caddyfile text (options of every block in
+	// the documented / in the reverse order) and loaded through UnmarshalCaddyfile
+	Origin string
 }
 
 func (c c03Cell) String() string {
@@ -40,7 +46,11 @@ func (c c03Cell) String() string {
 	if m == "" {
 		m = "(unset)"
 	}
-	return fmt.Sprintf("mode=%s ocsp=%s aia_strict=%v crl=%s cdp_strict=%v backend=%s chain=%s", m, c.OCSP, c.AIAStrict, c.CRL, c.CDPStrict, be(c.Disk), c.Chain)
+	o := ""
+	if c.Origin != "" {
+		o = " origin=" + c.Origin
+	}
+	return fmt.Sprintf("mode=%s ocsp=%s aia_strict=%v crl=%s cdp_strict=%v backend=%s chain=%s%s", m, c.OCSP, c.AIAStrict, c.CRL, c.CDPStrict, be(c.Disk), c.Chain, o)
 }
 
 const (
@@ -162,6 +172,15 @@ func (c *c03Cast) run(cell c03Cell) (o c03Obs) {
 			opt.CRL = nil // these modes must work without any crl_config
 		}
 		w := NewTW(opt)
+		if cell.Origin != "" {
+			text := c03Caddyfile(opt, cell.Origin == "caddyfile-other-order")
+			v := &revocation.CertRevocationValidator{}
+			if err := v.UnmarshalCaddyfile(caddyfile.NewTestDispenser(text)); err != nil {
+				o.ProvisionErr = "UnmarshalCaddyfile: " + err.Error() + "\n" + text
+				return
+			}
+			w.V = v
+		}
 		if err := w.Provision(); err != nil {
 			o.ProvisionErr = err.Error()
 			return
@@ -180,6 +199,49 @@ func (c *c03Cast) run(cell c03Cell) (o c03Obs) {
 	return
 }
 
+// c03Caddyfile writes the settings of opt as Caddyfile text.
+func c03Caddyfile(opt TWOpt, reverse bool) string {
+	block := func(indent string, lines []string) string {
+		if reverse {
+			for i, j := 0, len(lines)-1; i < j; i, j = i+1, j-1 {
+				lines[i], lines[j] = lines[j], lines[i]
+			}
+		}
+		var sb strings.Builder
+		for _, l := range lines {
+			for _, ll := range strings.Split(l, "\n") {
+				sb.WriteString(indent + ll + "\n")
+			}
+		}
+		return sb.String()
+	}
+	var top []string
+	if opt.Mode != "" {
+		top = append(top, "mode "+opt.Mode)
+	}
+	if c := opt.CRL; c != nil {
+		ls := []string{"work_dir " + c.WorkDir, "storage_type " + c.StorageType}
+		for _, f := range c.CRLFiles {
+			ls = append(ls, "crl_file "+f)
+		}
+		for _, u := range c.CRLUrls {
+			ls = append(ls, "crl_url "+u)
+		}
+		for _, f := range c.TrustedSignatureCertsFiles {
+			ls = append(ls, "trusted_signature_cert_file "+f)
+		}
+		if c.CDPConfig != nil {
+			cd := []string{"crl_fetch_mode fetch_actively", fmt.Sprintf("crl_cdp_strict %v", c.CDPConfig.CRLCDPStrict)}
+			ls = append(ls, "cdp_config {\n"+block("\t", cd)+"}")
+		}
+		top = append(top, "crl_config {\n"+block("\t", ls)+"}")
+	}
+	if oc := opt.OCSP; oc != nil {
+		top = append(top, "ocsp_config {\n"+block("\t", []string{fmt.Sprintf("ocsp_aia_strict %v", oc.OCSPAIAStrict)})+"}")
+	}
+	return "revocation {\n" + block("\t", top) + "}\n"
+}
+
 func c03Expect(cell c03Cell) (reject bool, ocspOn, crlOn bool) {
 	mode := cell.Mode
 	if mode == "" {
@@ -193,11 +255,22 @@ func c03Expect(cell c03Cell) (reject bool, ocspOn, crlOn bool) {
 	return
 }
 
+// c03ChainOrigins: every chain shape with the configuration filled in directly, and the first chain shape with the
+// configuration written as Caddyfile text (two option orders).
+func c03ChainOrigins() [][2]string {
+	var out [][2]string
+	for _, ch := range c03Chains {
+		out = append(out, [2]string{ch, ""})
+	}
+	out = append(out, [2]string{c03Chains[0], "caddyfile"}, [2]string{c03Chains[0], "caddyfile-other-order"})
+	return out
+}
+
 // RunC03 is the entry point of the C03 check.
 func RunC03(tier string, args []string) int {
 	chk := fw.NewCheck("C03", tier, "model_checking")
 	chk.Assumptions = []string{
-		"finite truth table enumerated completely: mode(6) x OCSP outcome(5: no AIA, good, revoked, unreachable, reachable but unusable answer) x aia_strict(2) x CRL outcome(6: none known, listed, not listed, CDP unavailable, CDP unavailable + listed in a configured file, listed in a configured crl_url) x cdp_strict(2) x backend(2) x chain shape(3) = 4320 cells; each cell = fresh Provision -> one VerifyClientCertificate -> Cleanup on the real caddy module",
+		"finite truth table enumerated completely: mode(6) x OCSP outcome(5: no AIA, good, revoked, unreachable, reachable but unusable answer) x aia_strict(2) x CRL outcome(6: none known, listed, not listed, CDP unavailable, CDP unavailable + listed in a configured file, listed in a configured crl_url) x cdp_strict(2) x backend(2) x (chain shape(3) with the configuration structs filled in directly + the first chain shape with the same settings loaded from Caddyfile text in two option orders) = 7200 cells; each cell = fresh Provision -> one VerifyClientCertificate -> Cleanup on the real caddy module",
 		"oracle: reject <=> (OCSP enabled and (revoked or, under aia_strict, no authentic answer)) or (CRL enabled and (listed or strict-unavailable)); side-effect monitors on the scripted origin and the work_dir",
 		"empty verifiedChains are not judged (the TLS stack never passes them in require-and-verify mode)",
 	}
@@ -213,8 +286,9 @@ func RunC03(tier string, args []string) int {
 				for _, cr := range c03CRL {
 					for _, cs := range []bool{false, true} {
 						for _, disk := range []bool{false, true} {
-							for _, ch := range c03Chains {
-								cell := c03Cell{mode, oc, as, cr, cs, disk, ch}
+							for _, chor := range c03ChainOrigins() {
+								ch := chor[0]
+								cell := c03Cell{mode, oc, as, cr, cs, disk, ch, chor[1]}
 								o := c.run(cell)
 								cells++
 								reject, ocspOn, crlOn := c03Expect(cell)
